@@ -243,6 +243,48 @@ def k_snell(ctx):
             ctx.check("nan-beyond-total-reflection", not np.isnan(th2))
 
 
+@harness("C08.snell-array", expect=lambda c: ["element-wise-snell"])
+def k_snell_array(ctx):
+    """an array of incidence angles: every element is refracted (or NaN) on its own - a scan that mixes
+    angles below and beyond the critical angle keeps its refracted part (n1 = 3/2, n2 = 1: glass to air;
+    all n1, n2 are the scalar kernel's)"""
+    from fractions import Fraction
+    n1, n2 = (Fraction(3, 2), Fraction(1)) if ctx.sym else (1.5, 1.0)
+    ths = [_theta(ctx, "theta_a"), _theta(ctx, "theta_b")]
+    if ctx.sym:
+        n1, n2 = Q.of(n1), Q.of(n2)
+        for t in ths:
+            core.assume_fact((t.sin() >= 0).t)
+            core.assume_fact((t.cos() >= 0).t)
+        arr = np.empty(2, dtype=object)
+        arr[0], arr[1] = ths
+    else:
+        if not all(0 <= t <= 90 for t in ths):
+            raise core.Infeasible()
+        arr = np.array(ths, dtype=float)
+    with _trig_env(ctx):
+        out = EM.snell(n1, n2, arr)
+    ctx.check("element-wise-snell", np.shape(out) == (2,), detail="result %r" % (out,))
+    if np.shape(out) != (2,):
+        return
+    for t1, t2 in zip(ths, out):
+        if ctx.sym:
+            s1 = t1.sin()
+            if isinstance(t2, float):          # NaN
+                ctx.check("element-wise-snell", n1 * s1 > n2, detail="NaN although this element has a refracted ray")
+            else:
+                (name, k), = t2.coef.items()
+                d = AG.INVERSE_OF[name]
+                ctx.check("element-wise-snell", And(poly_eq(d[1] * n2, n1 * s1), n1 * s1 <= n2))
+        else:
+            s1 = math.sin(math.radians(t1))
+            if n1 * s1 > n2 * (1 + 1e-12):
+                ctx.check("element-wise-snell", np.isnan(t2))
+            elif n1 * s1 < n2 * (1 - 1e-12):
+                ctx.check("element-wise-snell", (not np.isnan(t2)) and
+                          ctx.close(n1 * s1, n2 * math.sin(math.radians(float(t2))), rel=1e-9, abs_=1e-12), detail="%r -> %r" % (t1, t2))
+
+
 @harness("C08.snell-rejects", cases=lambda tier: ["n1<=0", "n2<=0"], expect=lambda c: ["non-positive-index-rejected"])
 def k_snell_rej(ctx):
     bad = ctx.real("bad", hi=0)
@@ -305,8 +347,8 @@ def k_fresnel(ctx):
         ctx.check("|R|<=1", And(square(Rv) <= 1, square(Rh) <= 1))
 
 
-PLAN["quick"]["harnesses"] += ["C08.snell", "C08.snell-rejects", "C08.fresnel"]
-PLAN["thorough"]["harnesses"] += ["C08.snell", "C08.snell-rejects", "C08.fresnel"]
-BOUNDS["quick"]["snell / fresnel"] = "all real n1, n2 > 0 and all incidence angles in [0, 90] degrees (scalar arguments)"
+PLAN["quick"]["harnesses"] += ["C08.snell", "C08.snell-array", "C08.snell-rejects", "C08.fresnel"]
+PLAN["thorough"]["harnesses"] += ["C08.snell", "C08.snell-array", "C08.snell-rejects", "C08.fresnel"]
+BOUNDS["quick"]["snell / fresnel"] = "all real n1, n2 > 0 and all incidence angles in [0, 90] degrees (scalar arguments; snell also for an array of two independent angles at n1 = 3/2, n2 = 1)"
 OUTSIDE[:] = [o for o in OUTSIDE if not o.startswith("snell")] + ["complex refractive indices in snell / fresnel"]
 STUBS.append("exact angle algebra for snell / fresnel (arcsin argument recorded; cosines of the refracted angle through its defining equations)")
